@@ -163,7 +163,9 @@ LEX_SEEDS = list(dict.fromkeys([
     '2000-01-01-14:00', '2000-01-01+13:59', '2000-01-01+13:60', '2000-01-01+1:00', '2000-01-01+01', '2000-01-01T00:00:00', '2000-01-01T24:00:00',
     '2000-01-01T24:00:01', '2000-01-01T24:00:00.0', '2000-01-01T24:00:00.1', '2000-01-01T23:59:60', '2000-01-01T23:60:00', '2000-01-01T25:00:00',
     '2000-01-01T12:00:00.123456789', '2000-01-01T12:00:00.', '2000-01-01T12:00', '2000-01-01 12:00:00', '2000-01-01t12:00:00',
-    '2000-01-01T12:00:00Z', '2000-01-01T12:00:00+05:30', '2000-01-01T12:00:00-00:00', '9999-12-31T23:59:59.999999', '9999-12-31T24:00:00',
+    '2000-01-01T12:00:00Z', '2000-01-01T12:00:00+05:30', '2000-01-01T12:00:00-00:00', '2000-01-01T12:00:00-00:30', '2000-01-01T12:00:00+00:30', '2000-01-01T12:00:00-00:01',
+    '2000-01-01T12:00:00-14:00', '2000-01-01-00:30', '2000-01-01+00:00', '12:00:00-00:30', '12:00:00-00:59', '2000-00:30', '2000-01-00:30', '--01-01-00:30', '--01-00:30', '---01-00:30',
+    '2000-01-01T12:00:00-00:60', '12:00:00-0030', '12:00:00-00:3', '9999-12-31T23:59:59.999999', '9999-12-31T24:00:00',
     '0000-01-01T00:00:00', '2000-02-30T00:00:00', '12:00:00', '24:00:00', '24:00:00.000', '24:00:01', '12:00:00.5', '12:00:00Z', '12:00', '1:00:00',
     '12:00:00+14:00', '23:59:59.9999999', '2000', '2000Z', '0000', '-0001', '20000', '02000', '200', '2000-01', '2000-13', '2000-00', '0000-01',
     '2000-01Z', '--01', '--13', '--00', '--01Z', '--1', '--01--', '---01', '---31', '---32', '---00', '---1', '---01Z', '---01+05:00', '--01-01',
@@ -328,6 +330,13 @@ def canonical_grid(tier, seed):
             elif tn == 'hexBinary':
                 if c != O.normalise(tn, s).upper():
                     bad('xs:hexBinary: string() is not the upper-case form', type=tn, s=s, canonical=c)
+            if tn in ('dateTime', 'date', 'time', 'gYear', 'gYearMonth', 'gMonth', 'gMonthDay', 'gDay', 'dateTimeStamp'):
+                import re as _re
+                m1, m2 = _re.search(r'(Z|[+-]\d\d:\d\d)$', O.normalise(tn, s)), _re.search(r'(Z|[+-]\d\d:\d\d)$', c)
+                z1 = None if m1 is None else 'Z' if m1.group(1) in ('Z', '+00:00', '-00:00') else m1.group(1)
+                z2 = None if m2 is None else 'Z' if m2.group(1) in ('Z', '+00:00', '-00:00') else m2.group(1)
+                if z1 != z2 and '24:00:00' not in s:
+                    bad('date/time types: the timezone of the canonical string is not the timezone of the lexical form', type=tn, s=s, canonical=c)
     # decimals produced by arithmetic (Python may hold them with an exponent)
     for e in ["xs:decimal('1') div xs:decimal('0.001')", "xs:decimal(1e3)", "1000000000000000000000.0 * 10", "xs:decimal(1e21)", "xs:decimal(1e-7)",
               "0.00001 * 0.001", "xs:decimal('100') * 1", "xs:decimal(xs:float('1e10'))", "10 div 4", "-(0.0)"]:
@@ -341,7 +350,9 @@ def canonical_grid(tier, seed):
     # equal values with different lexical forms hash alike
     pairs = [('hexBinary', '0a1b', '0A1B'), ('decimal', '1.0', '1'), ('decimal', '+01.50', '1.5'), ('integer', '+1', '1'), ('double', '1e0', '1'),
              ('float', '1.0', '1'), ('base64Binary', 'Y Q = =', 'YQ=='), ('dateTime', '2000-01-01T24:00:00', '2000-01-02T00:00:00'),
-             ('dateTime', '2000-01-01T12:00:00Z', '2000-01-01T13:00:00+01:00'), ('duration', 'P1Y', 'P12M'), ('duration', 'PT60M', 'PT1H'),
+             ('dateTime', '2000-01-01T12:00:00Z', '2000-01-01T13:00:00+01:00'), ('dateTime', '2000-01-01T12:00:00-00:30', '2000-01-01T12:30:00Z'),
+             ('dateTime', '2000-01-01T12:00:00+00:30', '2000-01-01T11:30:00Z'), ('time', '12:00:00-00:30', '12:30:00Z'), ('time', '12:00:00-00:01', '12:01:00Z'),
+             ('dateTime', '2000-01-01T00:00:00-14:00', '2000-01-01T14:00:00Z'), ('duration', 'P1Y', 'P12M'), ('duration', 'PT60M', 'PT1H'),
              ('dayTimeDuration', 'P1D', 'PT24H'), ('yearMonthDuration', 'P1Y1M', 'P13M'), ('time', '24:00:00', '00:00:00'),
              ('date', '2000-01-01Z', '2000-01-01+00:00'), ('gYear', '2000Z', '2000+00:00'), ('boolean', '1', 'true'), ('anyURI', ' http://a ', 'http://a'),
              ('language', ' en ', 'en'), ('untypedAtomic', 'a', 'a'), ('long', '007', '7')]
@@ -530,6 +541,18 @@ def cast_grid(tier, seed):
                         msg = _expected_value(version, sp, e, tn, b[1])
                         if msg:
                             bad(f'value not preserved: xs:{sp} -> xs:{_primitive(tn)} family', **w, detail=msg)
+    # a value of another type cast to a type derived from xs:string goes through xs:string (F&O 19.3): the result is the whitespace-processed string() of the value
+    for src in ('true()', 'false()', '1.0e0', '1.10', '12', "xs:float('1.5')", "xs:date('2000-01-01')", "xs:dayTimeDuration('PT60S')", "xs:anyURI('a')", "xs:hexBinary('0a')",
+                "xs:untypedAtomic(' x  y ')", '-0.0e0', '1e21'):
+        for tn in ('token', 'normalizedString', 'NMTOKEN', 'language', 'Name', 'NCName'):
+            for version in ('2.0', '3.1'):
+                for form in (f'xs:{tn}({src})', f'{src} cast as xs:{tn}'):
+                    n += 1
+                    st, v = _xp(version, form)
+                    st2, want = _xp(version, f'xs:{tn}(string({src}))')
+                    if (st, v if st == 'err' else str(v)) != (st2, want if st2 == 'err' else str(want)):
+                        bad('a non-string value cast to a type derived from xs:string is not the cast of its string value', expr=form, version=version, got=repr((st, v))[:70],
+                            through_string=repr((st2, want))[:70])
     fails = [{'key': k, 'items': it[:6], 'count': len(it), 'what': f'{k}: e.g. {it[0]}'} for k, it in fam.items()]
     return {'evaluations': n, 'distinct': n, 'exhaustive': False,
             'scope': f'{sum(map(len, CAST_SOURCES.values())) + 5} source expressions (all primitive types) x {len(TYPE_NAMES)} target types x XPath 2.0/3.1: '
